@@ -8,6 +8,13 @@ faults (d = 1 quick, 2 thorough) over the calls of a run is executed under the
 default schedule with virtual time (heartbeats pushed every 60 s as in the
 upstream tests; a pull-only configuration is explored as well).
 Oracle: fault-free results, each exactly once; errors surface; workers released.
+
+Also explored (see ctx.rule for the bounds): sharded pipelines over
+PrefetchedCourierServers (sharded_pipelines_as_iterator) under the same menu
+plus the death of any other worker at any RPC boundary and a slow consumer;
+fault-free runs with late replies; worker shuffles as environment choices; a
+killed worker rejoining (kill + restart); one orchestrator pause at any line;
+the smallest configuration under schedule exploration.
 """
 from vmc import charness, explorer
 
